@@ -434,7 +434,7 @@ def r03_8(ctx):
     def check(cn, fields, raw, prefix=()):
         c = repo.cls(ASH, cn)
         kw = {"frame": Obj(c, dict(fields), tag="frame")}
-        paths = px.explore(f, lambda: (self_obj(cls, {"_transport": Obj(TypeRef("Transport"), {}, tag="transport")}),
+        paths = px.explore(f, lambda: (self_obj(cls, {"_transport": Obj(TypeRef("Transport"), {}, tag="self._transport")}),
                                        {"frame": Obj(c, dict(fields), tag="frame"), **({"prefix": prefix} if prefix else {})}))
         for p in paths:
             want = bytes(int(x) for x in prefix) + spec_stuff(raw) + b"\x7e"
@@ -475,7 +475,7 @@ def r03_8(ctx):
 
         def entry():
             state["n"] = 0
-            me = self_obj(cls, {"_transport": Obj(TypeRef("Transport"), {}, tag="transport")})
+            me = self_obj(cls, {"_transport": Obj(TypeRef("Transport"), {}, tag="self._transport")})
             pxs.top_frame = None
             for cn, fields, cb in seq:
                 try:
@@ -494,7 +494,7 @@ def r03_8(ctx):
                         func=f, trace=p.trace(30))
     sr = repo.func(f"{ASH}:AshProtocol.send_reset")
     ctx.fn(sr)
-    for p in px.explore(sr, lambda: (self_obj(cls, {"_transport": Obj(TypeRef("Transport"), {}, tag="transport")}), {})):
+    for p in px.explore(sr, lambda: (self_obj(cls, {"_transport": Obj(TypeRef("Transport"), {}, tag="self._transport")}), {})):
         want = b"\x1a" + spec_stuff(spec_with_crc(b"\xC0")) + b"\x7e"
         ctx.require(written(p) == [want], "send_reset", f"send_reset writes {[g.hex() if g else g for g in written(p)]}, must write {want.hex()}",
                     func=sr, trace=p.trace(20))
@@ -1058,7 +1058,7 @@ def r02_5(ctx):
             chunks = [stream[a:b] for a, b in zip(bounds, bounds[1:])]
 
             def entry():
-                me = self_obj(cls, {"_buffer": bytearray(), "_discarding_until_next_flag": False, "_rx_seq": 3, "_transport": Obj(TypeRef("Transport"), {}, tag="transport"),
+                me = self_obj(cls, {"_buffer": bytearray(), "_discarding_until_next_flag": False, "_rx_seq": 3, "_transport": Obj(TypeRef("Transport"), {}, tag="self._transport"),
                                     "_pending_data_frames": {i: fut(f"pending{i}") for i in range(8)}})
                 px.top_frame = None
                 fault["mode"], fault["calls"] = mode, 0
